@@ -38,6 +38,11 @@ def items(tier):
             P, N = szs[-1] if tier == "quick" else szs[-2]
             out.append({"kind": "monotone", "metric": metric, "sc": sc, "ec": ec, "P": P, "N": N, "kp": 1, "kn": 2})
             out.append({"kind": "alias", "metric": metric, "sc": sc, "ec": ec, "P": szs[1][0], "N": szs[1][1]})
+            out.append({"kind": "reuse", "metric": metric, "sc": sc, "ec": ec})
+        if METRICS[metric][0] == "all":
+            for sc, ec in CFGS:
+                for ints in ("neg", "pos"):
+                    out.append({"kind": "mixed", "metric": metric, "sc": sc, "ec": ec, "ints": ints})
     return out
 
 
@@ -50,7 +55,47 @@ def _scores(h, P, N, strict=False):
 
 
 def run(h, kind, **p):
-    return {"roundtrip": run_roundtrip, "methods": run_methods, "monotone": run_monotone, "alias": run_alias}[kind](h, **p)
+    return {"roundtrip": run_roundtrip, "methods": run_methods, "monotone": run_monotone, "alias": run_alias, "reuse": run_reuse, "mixed": run_mixed}[kind](h, **p)
+
+
+def run_reuse(h, metric, sc, ec):
+    """one caller-owned float target ARRAY handed to the three methods in turn on an object WITHOUT easy samples
+    (rescaling is the identity there): results equal those on fresh scalars, the array is left untouched"""
+    P, N = (2, 1) if METRICS[metric][0] != "neg" else (1, 2)
+    pos, neg = _scores(h, P, N)
+    h.policy(gather="ite", sort="ite")
+    S = h.sa.Scores(h.array(pos), h.array(neg), score_class=sc, equal_class=ec)
+    r = h.real("r", float_atom=False)
+    R = h.np.asarray([r], dtype=float)
+    snap = h.snapshot(R)
+    f = getattr(S, f"threshold_at_{metric}")
+    for method in ("lower", "higher", "linear", "linear"):
+        got = h.cells(f(R, method=method))
+        want = f(r, method=method)
+        h.check(f"same target array reused ({method}): result equals the scalar call", len(got) == 1 and h.eq(got[0], want, 0))
+        h.check(f"same target array reused ({method}): caller's array untouched", h.unchanged(snap, R))
+
+
+def run_mixed(h, metric, sc, ec, ints):
+    """pooled metrics with integer scores in one class and float scores in the other: round trip within one sample"""
+    mk = lambda pre, isint: (h.ints(pre, 2, -3, 3) if isint else h.reals(pre, 2))
+    pos, neg = mk("p", ints == "pos"), mk("n", ints == "neg")
+    for a in (pos, neg):
+        h.assume(a[0] <= a[1])
+    h.policy(gather="fork", sort="fork")
+    S = h.sa.Scores(h.array(pos), h.array(neg), nb_easy_pos=1, nb_easy_neg=0, score_class=sc, equal_class=ec)
+    r = h.real("r", float_atom=False)
+    t = getattr(S, f"threshold_at_{metric}")(r)
+    a, M = numerator(h, metric, pos, neg, 1, 0, t, sc, ec)
+    b, _ = numerator(h, metric, pos, neg, 1, 0, t, sc, flip(ec))
+    lo, hi = achievable(metric, 2, 2, 1, 0)
+    rc = _clip(h, r * M, lo, hi)
+    h.check("mixed int/float score dtypes: round trip within one sample", h.And(h.le(h.min([a, b]) - 1, rc), h.le(rc, h.max([a, b]) + 1)))
+    for method in ("lower", "higher"):
+        tm = getattr(S, f"threshold_at_{metric}")(r, method=method)
+        srt = h.cells(h.np.sort(h.array([x * 1 for x in pos + neg]).astype(float)))
+        h.check(f"mixed dtypes: '{method}' returns an actual (untruncated) sample score or a sentinel",
+                h.Or([h.eq(tm, s, 0) for s in pos + neg] + [h.eq(tm, h.np.nextafter(srt[0], -float("inf")), 0), h.eq(tm, h.np.nextafter(srt[-1], float("inf")), 0)]))
 
 
 def _mk(h, pos, neg, kp, kn, sc, ec, metric):
